@@ -8,7 +8,7 @@ from . import lincommon as lc
 
 PROP = "C13"
 HOSTILE = ('scale', 'mean', 'special')
-MONITORS = ("WF", "DENS")
+MONITORS = ("WF", "DENS", "FORM")
 ANCHORS = [("pdf.py", "GaussianPDF.entropy"), ("pdf.py", "GaussianPDF.kl_divergence"),
            ("conditional.py", "ConditionalGaussianPDF.conditional_entropy"),
            ("conditional.py", "ConditionalGaussianPDF.mutual_information"),
@@ -84,8 +84,13 @@ def run_pdf(cell, rec, seed):
                 ep = lc.call(rec, "E_p ln p", lambda: p.integrate("log u(x)", factor=p), info)
                 eq = lc.call(rec, "E_p ln q", lambda: p.integrate("log u(x)", factor=qq), info)
                 if ep is not None and eq is not None:
+                    # both expectations are assembled from natural parameters: E[xx'] against
+                    # Lambda, nu'mu and ln_beta each carry |mu|'|Lambda||mu| of their own density
+                    ns_e = ns * 4 + nsH + 2.0 * np.einsum(
+                        "rd,rde,re->r", np.abs(tp.mu), np.abs(tp.Lambda), np.abs(tp.mu)) + np.abs(
+                        tp.ln_beta) + np.abs(np.broadcast_to(tqq.ln_beta, (R,)))
                     rec.close(f"{name} = E_p[ln p - ln q]", np.asarray(ep) - np.asarray(eq), ref,
-                              ns=ns * 4 + nsH, detail=info, mech=f"kl-vs-expectation:{name}")
+                              ns=ns_e, detail=info, mech=f"kl-vs-expectation:{name}")
         ref = orc.kl(tq1.mu, tq1.Sigma, tp.mu, tp.Sigma)
         got = lc.call(rec, "kl[1,R]", lambda: q1.kl_divergence(p), info)
         if got is not None:
